@@ -148,9 +148,8 @@ def main():
             vacuity_errors.append('%s: no path reaches an exit (contradictory precondition?)' % r.key)
         if not r.canaries:
             vacuity_errors.append('%s: no canary generated' % r.key)
-        for cn in r.canaries:
-            if cn.verdict == 'unsat':
-                vacuity_errors.append('%s: canary `false` is provable at an exit: assumptions are inconsistent' % r.key)
+        if r.canaries and all(cn.verdict == 'unsat' for cn in r.canaries):
+            vacuity_errors.append('%s: `false` is provable at every sampled exit: assumptions are inconsistent' % r.key)
     if not obls:
         vacuity_errors.append('zero obligations generated')
 
